@@ -2719,8 +2719,10 @@ class TLSConnection(TLSRecordLayer):
                     getattr(CertificateCompressionAlgorithm, algo) for algo
                     in settings.certificate_compression_receive
                 ]
-                extensions.append(CompressedCertificateExtension().create(
-                    algos_numbers))
+                if algos_numbers:
+                    extensions.append(
+                        CompressedCertificateExtension().create(
+                            algos_numbers))
 
         certificate_request.create(context=context, sig_algs=valid_sig_algs,
                                    extensions=extensions)
@@ -3136,9 +3138,11 @@ class TLSConnection(TLSRecordLayer):
                         getattr(CertificateCompressionAlgorithm, algo) for algo
                         in settings.certificate_compression_receive
                     ]
-                    cert_req_comp_cert_ext = CompressedCertificateExtension()\
-                        .create(algos_numbers)
-                    extensions.append(cert_req_comp_cert_ext)
+                    if algos_numbers:
+                        cert_req_comp_cert_ext = \
+                            CompressedCertificateExtension()\
+                            .create(algos_numbers)
+                        extensions.append(cert_req_comp_cert_ext)
 
                 certificate_request = CertificateRequest(self.version)
                 certificate_request.create(
